@@ -173,6 +173,17 @@ def check(case):
             except Exception:
                 pass
             _verify(Ts, out, info)
+            if case.get('again') is False and len(Ts) >= 2:
+                # the template step on its own, on a new Merger and a new folder: same rows
+                from phylib.io.merge import Merger
+                out3 = d / 'templates-only'
+                m3 = must_return('Merger()', Merger, [T.dir for T in Ts], out3)
+                must_return('Merger.write_templates() (called on its own)', m3.write_templates)
+                tp3 = np.load(out3 / 'templates.npy')
+                same_array('templates.npy written by write_templates() alone vs the one written '
+                           'by merge()', tp3, np.load(out / 'templates.npy'),
+                           key='templates-direct-route')
+                info['direct_templates'] = True
             if case.get('again') == 'reversed-same-dir' and len(Ts) >= 2:
                 # the probes are merged again, in the opposite order, over the earlier output
                 Tr = Ts[::-1]
@@ -227,6 +238,8 @@ def classify(case, info):
                                                    ':' + str(case['again'])))
     if case.get('rel'):
         labels.append('relative-probe-paths')
+    if info.get('direct_templates'):
+        labels.append('write_templates-called-on-its-own')
     kinds = set(p.get('wm_kind') for p in ps if p['wm'])
     if kinds - {None}:
         labels.append('triangular-or-diagonal-whitening')
